@@ -72,7 +72,7 @@ theorem patch_apply_safe (ops : List Patch.Op) (doc : J) (err : Err)
     reviewed sites whose argument has just been matched by the number / index-token pattern. Removing a handler,
     narrowing an `except`, or adding an unguarded conversion breaks this `decide`. -/
 theorem conversions_guarded :
-    Guards.guardsOK Generated.conversionGuards = true ∧ Guards.compilerSitesPresent Generated.conversionGuards = true := by decide
+    Guards.guardsOK Generated.conversionGuards = true ∧ Guards.compilerSitesPresent Generated.conversionSites = true := by decide
 
 /-- **Lexing any text fails only with a syntax error** (character-level lexer model): every rule consumes at
     least one character, so the scan always terminates within its fuel and the only failure is an
